@@ -5,7 +5,7 @@
    in_range_T, xsd_type_names: translated from datatypes.py on every run (gen/Gen_XsdTables.v). *)
 From Coq Require Import List ZArith Bool Ascii String.
 From Basyx Require Import model.XsdBase model.XsdRe model.XsdLex model.Xsd gen.Gen_XsdTables
-  proofs.XsdTableProofs proofs.XsdIntProofs.
+  model.XsdBin proofs.XsdTableProofs proofs.XsdIntProofs proofs.XsdDateFacts proofs.XsdDateProofs proofs.XsdBinProofs.
 Import ListNotations.
 Local Open Scope Z_scope.
 
@@ -71,3 +71,119 @@ Theorem C06_boolean : forall b, parse_bool (print_bool b) = Ok b /\ valid_xsd_bo
 Proof. intros b. split; [exact (bool_roundtrip b)|exact (bool_print_valid b)]. Qed.
 Theorem C06_boolean_reject_literal : forall s, valid_xsd_boolean s = false -> parse_bool s = Err ValueError.
 Proof. exact bool_reject_literal. Qed.
+
+(* ---- time zones.  A zone is None or an offset in minutes; [tz_ok] = the XSD range -14:00 .. +14:00
+   (-840 .. 840 minutes).  Every one of the 1681 offsets is written, recognised and read back, both in the
+   spelling of _serialize_date_tzinfo (Z, +hh:mm) and of isoformat() (+hh:mm) - by evaluating the check on all
+   of them (proofs/XsdDateFacts.v: tz_chk_date_all, tz_chk_iso_all). *)
+Theorem C06_zone_offsets : forall off, -840 <= off <= 840 ->
+  (exists g, tz_group_end (date_tz_text off) = Some g /\ parse_tzinfo g = Ok (Some off) /\
+             matches (opt tz_re) (date_tz_text off) = true) /\
+  (exists g, tz_group_end (iso_tz (Some off)) = Some g /\ parse_tzinfo g = Ok (Some off) /\
+             matches (opt tz_re) (iso_tz (Some off)) = true).
+Proof. exact zone_offsets. Qed.
+(* a zone outside that range is refused when a value is written *)
+Theorem C06_zone_out_of_range : forall h mi s us off, off < -840 \/ 840 < off ->
+  print_time (mkTime h mi s us (Some off)) = Err ValueError /\
+  forall y m d, print_datetime (mkDT y m d h mi s us (Some off)) = Err ValueError /\
+                print_date (mkDate y m d (Some off)) = Err ValueError.
+Proof. exact time_print_out_of_range. Qed.
+
+(* ---- date, time, dateTime: every well-formed value (fields in the ranges the datetime constructors
+   enforce: year 1..9999, real calendar days, 0..23 h, 0..59 min/s, ALL microseconds 0..999999; zone in range)
+   is written as a valid literal of its type that reads back as the same value *)
+Theorem C06_date_roundtrip : forall v,
+  date_fields_ok (d_y v) (d_m v) (d_d v) = true /\ tz_ok (d_tz v) = true ->
+  exists s, print_date v = Ok s /\ parse_date s = Ok v /\ valid_xsd_date s = true.
+Proof. exact date_roundtrip. Qed.
+Theorem C06_time_roundtrip : forall v,
+  time_fields_ok (t_h v) (t_mi v) (t_s v) (t_us v) = true /\ tz_ok (t_tz v) = true ->
+  exists s, print_time v = Ok s /\ parse_time s = Ok v /\ valid_xsd_time s = true.
+Proof. exact time_roundtrip. Qed.
+Theorem C06_datetime_roundtrip : forall v,
+  date_fields_ok (dt_y v) (dt_m v) (dt_d v) = true /\ time_fields_ok (dt_h v) (dt_mi v) (dt_s v) (dt_us v) = true /\
+  tz_ok (dt_tz v) = true ->
+  exists s, print_datetime v = Ok s /\ parse_datetime s = Ok v /\ valid_xsd_datetime s = true.
+Proof. exact datetime_roundtrip. Qed.
+(* the microsecond field: '%06d' followed by _parse_xsd_microseconds is the identity on all 10^6 values *)
+Theorem C06_microseconds : forall us, 0 <= us <= 999999 -> us_of_frac (fmt_0d 6 us) = us.
+Proof. intros us H. exact (proj2 (proj2 (six_digits us H))). Qed.
+(* every string that is not a literal of the type is rejected with ValueError *)
+Theorem C06_date_reject_literal : forall s, valid_xsd_date s = false -> parse_date s = Err ValueError.
+Proof. exact date_reject_literal. Qed.
+Theorem C06_time_reject_literal : forall s, valid_xsd_time s = false -> parse_time s = Err ValueError.
+Proof. exact time_reject_literal. Qed.
+Theorem C06_datetime_reject_literal : forall s, valid_xsd_datetime s = false -> parse_datetime s = Err ValueError.
+Proof. exact datetime_reject_literal. Qed.
+Example C06_datetime_examples :
+  parse_datetime (L "2020-01-24T15:25:17.000017-00:20") = Ok (mkDT 2020 1 24 15 25 17 17 (Some (-20))) /\
+  print_datetime (mkDT 999 2 28 23 59 59 999999 (Some 840)) = Ok (L "0999-02-28T23:59:59.999999+14:00") /\
+  print_date (mkDate 2000 1 1 (Some 780)) = Ok (L "2000-01-01+13:00") /\
+  parse_date (L "2000-01-01+01:75") = Err ValueError /\ parse_date (L "1900-02-29") = Err ValueError /\
+  valid_xsd_datetime (L "2020-02-30T00:00:00") = false /\ valid_xsd_time (L "24:00:00") = true /\
+  parse_time (L "24:00:00") = Err ValueError.
+Proof. vm_compute. repeat split. Qed.
+
+(* ---- gYearMonth, gYear, gMonthDay, gDay, gMonth (years 1..9999; month/day as the constructors demand) *)
+Theorem C06_g_value_spaces :
+  (forall y m, ctor_ok_GYearMonth y m = true <-> 1 <= m <= 12) /\
+  (forall m, ctor_ok_GMonth m = true <-> 1 <= m <= 12) /\
+  (forall d, ctor_ok_GDay d = true <-> 1 <= d <= 31) /\
+  (forall m d, ctor_ok_GMonthDay m d = true <->
+     1 <= m <= 12 /\ 1 <= d <= (if m =? 2 then 29 else if (m =? 4) || (m =? 6) || (m =? 9) || (m =? 11) then 30 else 31)).
+Proof. exact ctor_ranges. Qed.
+Theorem C06_gyear_roundtrip : forall v, 1 <= gy_y v <= 9999 /\ tz_ok (gy_tz v) = true ->
+  exists s, print_gyear v = Ok s /\ parse_gyear s = Ok v /\ valid_xsd_gyear s = true.
+Proof. exact gyear_roundtrip. Qed.
+Theorem C06_gyearmonth_roundtrip : forall v,
+  1 <= gym_y v <= 9999 /\ ctor_ok_GYearMonth (gym_y v) (gym_m v) = true /\ tz_ok (gym_tz v) = true ->
+  exists s, print_gyearmonth v = Ok s /\ parse_gyearmonth s = Ok v /\ valid_xsd_gyearmonth s = true.
+Proof. exact gyearmonth_roundtrip. Qed.
+Theorem C06_gmonthday_roundtrip : forall v, ctor_ok_GMonthDay (gmd_m v) (gmd_d v) = true /\ tz_ok (gmd_tz v) = true ->
+  exists s, print_gmonthday v = Ok s /\ parse_gmonthday s = Ok v /\ valid_xsd_gmonthday s = true.
+Proof. exact gmonthday_roundtrip. Qed.
+Theorem C06_gday_roundtrip : forall v, ctor_ok_GDay (gd_d v) = true /\ tz_ok (gd_tz v) = true ->
+  exists s, print_gday v = Ok s /\ parse_gday s = Ok v /\ valid_xsd_gday s = true.
+Proof. exact gday_roundtrip. Qed.
+Theorem C06_gmonth_roundtrip : forall v, ctor_ok_GMonth (gm_m v) = true /\ tz_ok (gm_tz v) = true ->
+  exists s, print_gmonth v = Ok s /\ parse_gmonth s = Ok v /\ valid_xsd_gmonth s = true.
+Proof. exact gmonth_roundtrip. Qed.
+Theorem C06_g_reject_literal : forall s,
+  (valid_xsd_gyear s = false -> parse_gyear s = Err ValueError) /\
+  (valid_xsd_gyearmonth s = false -> parse_gyearmonth s = Err ValueError) /\
+  (valid_xsd_gmonthday s = false -> parse_gmonthday s = Err ValueError) /\
+  (valid_xsd_gday s = false -> parse_gday s = Err ValueError) /\
+  (valid_xsd_gmonth s = false -> parse_gmonth s = Err ValueError).
+Proof.
+  intros s. exact (conj (gyear_reject_literal s) (conj (gyearmonth_reject_literal s) (conj (gmonthday_reject_literal s)
+                  (conj (gday_reject_literal s) (gmonth_reject_literal s))))).
+Qed.
+Example C06_g_examples :
+  print_gyearmonth (mkGYM 999 5 None) = Ok (L "0999-05") /\ parse_gyearmonth (L "0999-05") = Ok (mkGYM 999 5 None) /\
+  print_gmonthday (mkGMD 2 29 (Some 0)) = Ok (L "--02-29Z") /\ parse_gmonthday (L "--02-30") = Err ValueError /\
+  parse_gday (L "---31-14:00") = Ok (mkGD 31 (Some (-840))) /\ parse_gmonth (L "--13") = Err ValueError.
+Proof. vm_compute. repeat split. Qed.
+
+(* ---- string, anyURI (identity mapping; every text is a literal), normalizedString (no CR, LF, TAB) *)
+Theorem C06_string_roundtrip : forall v, parse_string (print_string v) = Ok v /\ valid_xsd_string (print_string v) = true.
+Proof. exact string_roundtrip. Qed.
+Theorem C06_normalizedstring_roundtrip : forall v, valid_xsd_normalizedstring v = true ->
+  new_normalizedstring v = Ok v /\ parse_normalizedstring (print_string v) = Ok v.
+Proof. exact normalizedstring_roundtrip. Qed.
+(* forbidden whitespace is refused by the constructor and by from_xsd *)
+Theorem C06_normalizedstring_reject : forall s, valid_xsd_normalizedstring s = false ->
+  new_normalizedstring s = Err ValueError /\ parse_normalizedstring s = Err ValueError.
+Proof. exact normalizedstring_reject. Qed.
+
+(* ---- hexBinary, base64Binary: arbitrary byte strings *)
+Theorem C06_hex_roundtrip : forall b, parse_hex (print_hex b) = Ok b /\ valid_xsd_hexbinary (print_hex b) = true.
+Proof. exact hex_roundtrip. Qed.
+Theorem C06_hex_reject_literal : forall s, valid_xsd_hexbinary s = false -> parse_hex s = Err ValueError.
+Proof. exact hex_reject_literal. Qed.
+Theorem C06_base64_roundtrip : forall b, parse_base64 (print_base64 b) = Ok b /\ valid_xsd_base64 (print_base64 b) = true.
+Proof. exact base64_roundtrip. Qed.
+Example C06_binary_examples :
+  print_base64 (L "abc") = L "YWJj" /\ print_base64 (L "hi") = L "aGk=" /\ parse_base64 (L "aGl=") = Err ValueError /\
+  parse_base64 (L "!!aGk=") = Err ValueError /\ parse_base64 (L " a G k = ") = Ok (L "hi") /\
+  print_hex (L "hi") = L "6869" /\ parse_hex (L "ab cd") = Err ValueError /\ parse_hex (L " 6A6b ") = Ok (L "jk").
+Proof. vm_compute. repeat split. Qed.
